@@ -52,7 +52,10 @@ func c09Dec(in []int64) ([]c09Op, bool) {
 	return ops, !r.bad
 }
 
-// c09Drain empties the result queue, in order, as enc_zss.
+// c09Drain empties the result queue, in order, as enc_zss — and then puts the
+// keys back, so that the trie's queue is NOT empty when the next Keys or
+// StartsWith begins: what the next call hands back must be its own result
+// only (the code clears the queue first; a call that forgot to would show).
 func c09Drain(q trie.Queuer[string]) []int64 {
 	var ks []string
 	for i := 0; q.Size() > 0 && i < 1<<20; i++ {
@@ -61,6 +64,9 @@ func c09Drain(q trie.Queuer[string]) []int64 {
 			break
 		}
 		ks = append(ks, k)
+	}
+	for _, k := range ks {
+		q.Enqueue(k)
 	}
 	w := &W{}
 	w.Int(len(ks))
@@ -132,15 +138,25 @@ func describeC09(in []int64) string {
 	names := []string{"Put", "Get", "Contains", "Size", "Keys", "StartsWith", "LongestPrefix"}
 	var sb strings.Builder
 	sb.WriteString("New()")
-	for _, o := range ops {
+	short := func(k string) string {
+		if len(k) <= 40 {
+			return fmt.Sprintf("%q", k)
+		}
+		return fmt.Sprintf("%q..%q(%d bytes)", k[:12], k[len(k)-8:], len(k))
+	}
+	for i, o := range ops {
+		if i >= 60 {
+			fmt.Fprintf(&sb, "; ... (%d operations)", len(ops))
+			break
+		}
 		switch o.op {
 		case c09Put:
-			fmt.Fprintf(&sb, "; Put(%q,%d)", o.key, o.val)
+			fmt.Fprintf(&sb, "; Put(%s,%d)", short(o.key), o.val)
 		case c09Size, c09Keys:
 			fmt.Fprintf(&sb, "; %s()", names[o.op])
 		default:
 			if o.op >= 0 && o.op < len(names) {
-				fmt.Fprintf(&sb, "; %s(%q)", names[o.op], o.key)
+				fmt.Fprintf(&sb, "; %s(%s)", names[o.op], short(o.key))
 			} else {
 				fmt.Fprintf(&sb, "; ?%d", o.op)
 			}
@@ -171,8 +187,10 @@ func c09Strings(alpha string, lo, hi int) []string {
 // an unstored proper prefix of a stored key.
 func c09Classify(g *Gen, ops []c09Op) bool {
 	stored := map[string]bool{}
-	nested, prefixQuery, hiByte, reput := false, false, false, false
+	prefixes := map[string]bool{} // every proper prefix of a stored key
+	nested, prefixQuery, hiByte, reput, readBeforePut := false, false, false, false, false
 	names := []string{"Put", "Get", "Contains", "Size", "Keys", "StartsWith", "LongestPrefix"}
+	maxLen, reads := 0, 0
 	for _, o := range ops {
 		g.Count("op:" + names[o.op])
 		if o.op != c09Size && o.op != c09Keys && o.key == "" {
@@ -180,29 +198,49 @@ func c09Classify(g *Gen, ops []c09Op) bool {
 		}
 		switch o.op {
 		case c09Put:
+			if reads > 0 {
+				readBeforePut = true
+			}
 			if stored[o.key] {
 				reput = true
 			}
-			for k := range stored {
-				if k != o.key && (strings.HasPrefix(k, o.key) || strings.HasPrefix(o.key, k)) {
+			if prefixes[o.key] {
+				nested = true
+			}
+			for i := 1; i < len(o.key); i++ {
+				if stored[o.key[:i]] {
 					nested = true
 				}
+				prefixes[o.key[:i]] = true
 			}
 			stored[o.key] = true
+			if len(o.key) > maxLen {
+				maxLen = len(o.key)
+			}
 			for i := 0; i < len(o.key); i++ {
 				if o.key[i] >= 0x80 {
 					hiByte = true
 				}
 			}
 		case c09Get, c09Contains:
-			if !stored[o.key] && o.key != "" {
-				for k := range stored {
-					if strings.HasPrefix(k, o.key) {
-						prefixQuery = true
-					}
-				}
+			reads++
+			if !stored[o.key] && o.key != "" && prefixes[o.key] {
+				prefixQuery = true
 			}
+		default:
+			reads++
 		}
+	}
+	if readBeforePut {
+		g.Count("a query precedes a Put (interleaved)")
+	}
+	switch {
+	case maxLen >= 1000:
+		g.Count("longest key: 1000+ bytes")
+	case maxLen >= 257:
+		g.Count("longest key: 257..999 bytes")
+	case maxLen >= 64:
+		g.Count("longest key: 64..256 bytes")
 	}
 	if nested {
 		g.Count("stores a key and a proper prefix of it")
@@ -219,8 +257,10 @@ func c09Classify(g *Gen, ops []c09Op) bool {
 	switch n := len(stored); {
 	case n <= 5:
 		g.Count(fmt.Sprintf("distinct keys:%d", n))
+	case n < 100:
+		g.Count("distinct keys:6-99")
 	default:
-		g.Count("distinct keys:6+")
+		g.Count("distinct keys:100+")
 	}
 	return nested || prefixQuery
 }
@@ -281,6 +321,7 @@ func genC09(g *Gen) {
 		})
 		// every multiset of maxSeq+1 .. maxMulti keys, inserted ascending, descending and middle-out
 		for n := maxSeq + 1; n <= maxMulti; n++ {
+			nms := 0
 			multisets(len(pool), n, func(idx []int) {
 				asc := make([]string, n)
 				for i, v := range idx {
@@ -300,9 +341,16 @@ func genC09(g *Gen) {
 						mid = append(mid, asc[hi])
 					}
 				}
+				nms++
 				for _, kind := range c09Kinds {
-					emit("exhaustive", c09Suite(puts(asc), queries, kind))
-					emit("exhaustive", c09Suite(puts(desc), queries, kind))
+					// multisets of 5 (thorough tier only): middle-out always, ascending and
+					// descending alternately — keeps the thorough tier near 10 minutes
+					if n < 5 || nms%2 == 0 {
+						emit("exhaustive", c09Suite(puts(asc), queries, kind))
+					}
+					if n < 5 || nms%2 == 1 {
+						emit("exhaustive", c09Suite(puts(desc), queries, kind))
+					}
 					emit("exhaustive", c09Suite(puts(mid), queries, kind))
 				}
 			})
@@ -317,6 +365,39 @@ func genC09(g *Gen) {
 		family("ab\xc3", 3, 3, 3, 3)       // keys 1..3 over {a,b,0xC3}: all sequences <= 3; queries <= 3
 		family("ab\xc3", 2, 3, 5, 4)       // keys 1..2 over {a,b,0xC3}: multisets of 4 and 5; queries <= 4
 		family("a\xc3\xa9", 2, 4, 4, 3)    // keys 1..2 over {a,0xC3,0xA9}: all sequences <= 4
+	}
+	// --- exhaustive, interleaved: every sequence of <= 3 (thorough 4) operations
+	// over Put k / Get k / StartsWith k / LongestPrefix k (k one of the six keys
+	// of length 1..2 over {a,b}), Keys and Size — queries BEFORE and BETWEEN the
+	// Puts, results observed per operation — followed by Get of the six keys.
+	// (State that a query leaves behind — the shared result queue, anything a
+	// lookup might remember — meets a later Put only on such histories.)
+	{
+		pool := c09Strings("ab", 1, 2)
+		np := len(pool)
+		seqsUpTo(4*np+2, g.Pick(3, 4), func(seq []int) {
+			ops := make([]c09Op, 0, len(seq)+np)
+			for i, v := range seq {
+				switch {
+				case v < np:
+					ops = append(ops, c09Op{c09Put, pool[v], 10*(i+1) + len(pool[v])})
+				case v < 2*np:
+					ops = append(ops, c09Op{c09Get, pool[v-np], 0})
+				case v < 3*np:
+					ops = append(ops, c09Op{c09StartsWith, pool[v-2*np], 0})
+				case v < 4*np:
+					ops = append(ops, c09Op{c09LongestPrefix, pool[v-3*np] + "b", 0})
+				case v == 4*np:
+					ops = append(ops, c09Op{c09Keys, "", 0})
+				default:
+					ops = append(ops, c09Op{c09Size, "", 0})
+				}
+			}
+			for _, k := range pool {
+				ops = append(ops, c09Op{c09Get, k, 0})
+			}
+			emit("exhaustive", ops)
+		})
 	}
 	g.Exhaustive("exhaustive")
 
@@ -388,6 +469,12 @@ func genC09(g *Gen) {
 		emit("random", ops)
 	}
 
+	// --- large: hundreds of keys, long keys, long shared prefixes, prefix chains
+	c09Large(g, emit)
+
+	// --- extreme: every byte value 0x00..0xFF, at the first and at the last position
+	c09Extreme(g, emit)
+
 	// --- malformed / boundary: empty trie, empty arguments, byte 0, long keys
 	emit("malformed", nil)
 	long := strings.Repeat("ab\xc3", 200)
@@ -398,7 +485,254 @@ func genC09(g *Gen) {
 	}
 }
 
+// c09Orders returns the key set in ascending, descending, middle-out and
+// (seeded) random insertion order.  Ascending/descending insertion of a sorted
+// set degenerates the left/right links of the ternary tree into lists.
+func c09Orders(g *Gen, keys []string) [][]string {
+	asc := append([]string{}, keys...)
+	sort.Strings(asc)
+	n := len(asc)
+	desc := make([]string, n)
+	for i := range asc {
+		desc[n-1-i] = asc[i]
+	}
+	mid := make([]string, 0, n)
+	for lo, hi := (n-1)/2, (n-1)/2+1; lo >= 0 || hi < n; lo, hi = lo-1, hi+1 {
+		if lo >= 0 {
+			mid = append(mid, asc[lo])
+		}
+		if hi < n {
+			mid = append(mid, asc[hi])
+		}
+	}
+	rnd := make([]string, n)
+	for i, p := range g.Rng.Perm(n) {
+		rnd[i] = asc[p]
+	}
+	return [][]string{asc, desc, mid, rnd}
+}
+
+// c09Probe: after the Puts — Size, Keys, the given StartsWith prefixes and
+// LongestPrefix queries, Get and Contains of every listed key, then a second
+// Put of every third key (new values; Size must not move), Size, Get of those.
+func c09Probe(puts []c09Op, keys, prefixes, queries, lookups []string) []c09Op {
+	ops := append([]c09Op{}, puts...)
+	ops = append(ops, c09Op{c09Size, "", 0}, c09Op{c09Keys, "", 0})
+	for _, p := range prefixes {
+		ops = append(ops, c09Op{c09StartsWith, p, 0})
+	}
+	for _, q := range queries {
+		ops = append(ops, c09Op{c09LongestPrefix, q, 0})
+	}
+	for _, k := range lookups {
+		ops = append(ops, c09Op{c09Get, k, 0}, c09Op{c09Contains, k, 0})
+	}
+	for i := 0; i < len(keys); i += 3 {
+		ops = append(ops, c09Op{c09Put, keys[i], 5000 + i})
+	}
+	ops = append(ops, c09Op{c09Size, "", 0})
+	for i := 0; i < len(keys); i += 3 {
+		ops = append(ops, c09Op{c09Get, keys[i], 0})
+	}
+	return ops
+}
+
+func c09Puts(keys []string) []c09Op {
+	ops := make([]c09Op, len(keys))
+	for i, k := range keys {
+		ops[i] = c09Op{c09Put, k, i + 1}
+	}
+	return ops
+}
+
+func c09Large(g *Gen, emit func(stream string, ops []c09Op)) {
+	rep := func(s string, n int) string { return strings.Repeat(s, n/len(s)+1)[:n] }
+	// (1) prefix chains of 12 and 25 keys: a, aa, aaa, ... and a chain over changing
+	// bytes; inserted shortest-first, longest-first, middle-out and at random;
+	// LongestPrefix for every length up to 3 past the chain, also with a last byte that leaves the chain
+	for _, unit := range []string{"a", "ab\xc3\x00\xff"} {
+		for _, n := range []int{12, 25} {
+			var chain []string
+			for i := 1; i <= n; i++ {
+				if i%5 != 0 { // every fifth link is NOT stored: an unstored node on the path
+					chain = append(chain, rep(unit, i))
+				}
+			}
+			var queries, lookups []string
+			for i := 1; i <= n+3; i++ {
+				queries = append(queries, rep(unit, i), rep(unit, i)[:i-1]+"\x01")
+				lookups = append(lookups, rep(unit, i))
+			}
+			for _, order := range c09Orders(g, chain) {
+				g.Count("large: prefix chain")
+				emit("large", c09Probe(c09Puts(order), order, []string{rep(unit, 1), rep(unit, 4), rep(unit, 5), rep(unit, n), rep(unit, n+1)}, queries, lookups))
+			}
+		}
+	}
+	// (2) long keys: 63..65, 127..129, 255..257, 1000 (thorough 4000) bytes, their
+	// neighbours in length and a key leaving them at the last byte; long LongestPrefix queries
+	for _, n := range []int{63, 64, 65, 127, 128, 129, 255, 256, 257, 1000, g.Pick(1000, 4000)} {
+		base := rep("ab\xc3\xa9\x00\xff", n)
+		keys := []string{base, base[:n-1], base + "z", base[:n-1] + "\x01", base[:n/2], "a"}
+		queries := []string{base, base + base, base[:n-1], base[:n-2], base[:n-1] + "\x02", base + "zz", base[:n/2+1], "b"}
+		lookups := append([]string{base[:n-2], base[:n/2+1], base[:1]}, keys...)
+		for _, order := range c09Orders(g, keys) {
+			g.Count("large: long keys")
+			emit("large", c09Probe(c09Puts(order), order, []string{base[:n/2], base[:n-1], base, "a", "b"}, queries, lookups))
+		}
+	}
+	// (3) many keys sharing a long prefix: 40 keys under a 300-byte prefix and 200
+	// (thorough 300) keys under a 60-byte prefix, each = prefix + 2 bytes; the prefix
+	// itself and its first half are stored too.  (One case stays below ~10^5 wire
+	// integers: the extracted model recurses over the wire lists on the OCaml stack.)
+	for _, sh := range [][2]int{{300, g.Pick(40, 60)}, {60, g.Pick(200, 300)}} {
+		pre := rep("shared/prefix\xff\x00", sh[0])
+		var keys []string
+		for i := 0; i < sh[1]; i++ {
+			keys = append(keys, pre+string([]byte{byte(i * 7), byte(i / 3)}))
+		}
+		keys = append(keys, pre, pre[:sh[0]/2])
+		lookups := []string{pre[:sh[0]-1], pre + "\x00", pre[:sh[0]/2+1]}
+		for i := 0; i < len(keys); i += 5 {
+			lookups = append(lookups, keys[i])
+		}
+		lookups = append(lookups, pre, pre[:sh[0]/2])
+		for oi, order := range c09Orders(g, keys) {
+			if g.Quick() && oi%2 == 1 {
+				continue
+			}
+			g.Count("large: many keys under a long shared prefix")
+			emit("large", c09Probe(c09Puts(order), order, []string{pre, pre[:sh[0]/2], pre + "\x07"}, []string{pre + "\x07\x00zzz", pre[:sh[0]-10], pre[:sh[0]/3]}, lookups))
+		}
+	}
+	// (4) hundreds of short keys: "k" + decimal numeral 0..599 (thorough 0..2999) — the
+	// package's own test style — StartsWith("k") returns all of them, ("k1"), ("k12") ... tens to hundreds
+	{
+		nk := g.Pick(600, 3000)
+		var keys []string
+		for i := 0; i < nk; i++ {
+			keys = append(keys, "k"+fmt.Sprint(i))
+		}
+		for _, order := range c09Orders(g, keys) {
+			g.Count("large: hundreds of keys")
+			emit("large", c09Probe(c09Puts(order), order, []string{"k", "k1", "k12", "k5", "k59", "k599", "k6", "k0", "k00", "j"}, []string{"k1234567", "k5990", "k60", "k", "l9"}, append([]string{"", "k", "k01", "k1000000"}, keys...)))
+		}
+	}
+	// (5) seeded random: 150..400 keys of length 1..12 over 4 letters (dense sharing), interleaved queries
+	for it, nr := 0, g.Pick(12, 150); it < nr; it++ {
+		al := []byte{'a', 'b', 0x00, 0xff}
+		var pool []string
+		var ops []c09Op
+		nk := 150 + g.Rng.Intn(251)
+		for i := 0; i < nk; i++ {
+			b := make([]byte, 1+g.Rng.Intn(12))
+			for j := range b {
+				b[j] = al[g.Rng.Intn(len(al))]
+			}
+			k := string(b)
+			if len(pool) > 0 && g.Rng.Intn(3) == 0 {
+				k = pool[g.Rng.Intn(len(pool))] + k[:1+g.Rng.Intn(len(k))] // an extension of an earlier key
+			}
+			pool = append(pool, k)
+			ops = append(ops, c09Op{c09Put, k, i})
+			switch g.Rng.Intn(12) {
+			case 0:
+				ops = append(ops, c09Op{c09Get, pool[g.Rng.Intn(len(pool))], 0})
+			case 1:
+				p := pool[g.Rng.Intn(len(pool))]
+				ops = append(ops, c09Op{c09StartsWith, p[:1+g.Rng.Intn(len(p))], 0})
+			case 2:
+				ops = append(ops, c09Op{c09LongestPrefix, pool[g.Rng.Intn(len(pool))] + "ab", 0})
+			case 3:
+				ops = append(ops, c09Op{c09Size, "", 0})
+			}
+		}
+		ops = append(ops, c09Op{c09Keys, "", 0}, c09Op{c09StartsWith, "a", 0}, c09Op{c09StartsWith, "\xff", 0})
+		g.Count("large: random dense key set")
+		emit("large", ops)
+	}
+}
+
+func c09Extreme(g *Gen, emit func(stream string, ops []c09Op)) {
+	// all 256 one-byte keys: Keys must come back in byte order 0x00 .. 0xFF, unaltered
+	var one []string
+	for b := 0; b < 256; b++ {
+		one = append(one, string([]byte{byte(b)}))
+	}
+	for _, order := range c09Orders(g, one) {
+		g.Count("extreme: all 256 one-byte keys")
+		emit("extreme", c09Probe(c09Puts(order), order, []string{"\x00", "\x7f", "\x80", "\xff"}, []string{"\x00\x00", "\xff\xff", "\x80a"}, one))
+	}
+	// every byte value at the last position after a fixed first byte, and at the
+	// first position before a fixed last byte — with 0x00 and 0xFF as the fixed byte
+	for _, fix := range []byte{0x00, 0xff, 'a', 0x80} {
+		var last, first []string
+		for b := 0; b < 256; b++ {
+			last = append(last, string([]byte{fix, byte(b)}))
+			first = append(first, string([]byte{byte(b), fix}))
+		}
+		for oi, set := range [][]string{last, first} {
+			for oj, order := range c09Orders(g, set) {
+				if g.Quick() && (oi+oj)%2 == 1 {
+					continue
+				}
+				g.Count("extreme: every byte value at the first / last position")
+				f := string([]byte{fix})
+				lookups := append([]string{f, f + f + f}, set...)
+				emit("extreme", c09Probe(c09Puts(order), order, []string{f, "\x00", "\xff", f + f}, []string{f + f + f, "\xff\x00\xff", "\x00\xff\x00"}, lookups))
+			}
+		}
+	}
+	// seeded random over the full byte range, keys of length 1..3, 0x00 / 0xFF favoured
+	for it, nr := 0, g.Pick(300, 5000); it < nr; it++ {
+		rb := func() byte {
+			switch g.Rng.Intn(6) {
+			case 0:
+				return 0x00
+			case 1:
+				return 0xff
+			case 2:
+				return []byte{0x7f, 0x80, 0x01, 0xfe}[g.Rng.Intn(4)]
+			}
+			return byte(g.Rng.Intn(256))
+		}
+		rk := func() string {
+			b := make([]byte, 1+g.Rng.Intn(3))
+			for j := range b {
+				b[j] = rb()
+			}
+			return string(b)
+		}
+		var ops []c09Op
+		var pool []string
+		for i := 0; i < 30; i++ {
+			k := rk()
+			if len(pool) > 0 && g.Rng.Intn(3) == 0 {
+				k = pool[g.Rng.Intn(len(pool))]
+				if g.Rng.Intn(2) == 0 {
+					k += string([]byte{rb()})
+				}
+			}
+			switch g.Rng.Intn(8) {
+			case 0, 1, 2, 3:
+				pool = append(pool, k)
+				ops = append(ops, c09Op{c09Put, k, i})
+			case 4:
+				ops = append(ops, c09Op{c09Get, k, 0})
+			case 5:
+				ops = append(ops, c09Op{c09StartsWith, k[:1], 0})
+			case 6:
+				ops = append(ops, c09Op{c09LongestPrefix, k + string([]byte{rb()}), 0})
+			default:
+				ops = append(ops, c09Op{c09Keys, "", 0})
+			}
+		}
+		g.Count("extreme: random keys over all byte values")
+		emit("extreme", ops)
+	}
+}
+
 func init() {
 	register(&Prop{ID: "C09", Exec: execC09, Gen: genC09, Describe: describeC09,
-		Rule: "exhaustive: keys of length 1..3 over {a,b}: every Put sequence (with repetitions) of <= 3 keys and every multiset of 4 keys inserted in ascending, descending and middle-out order; keys of length 1..2 over {a,0xC3,0xA9}: every Put sequence of <= 3 keys (thorough: keys 1..4 over {a,b} with multisets of 4 and 5, keys 1..3 over {a,b,0xC3}, multisets of 5, sequences of 4); every key sequence is followed, in four separate cases (one per query kind Get, Contains, StartsWith, LongestPrefix), by the empty-argument call and then the call for EVERY string of length 1..4 (resp. 1..3) over the alphabet, Size and Keys (queues drained). random: 10..60 interleaved operations on key sets grown by extending, truncating, mutating and repeating earlier keys over a random sub-alphabet of {a,b,c,0x00,0x7f,0x80,0xa9,0xc3,0xff}. non-trivial = the history stores a key together with a proper prefix of it, or asks Get/Contains for an unstored proper prefix of a stored key; distinct = distinct wire input"})
+		Rule: "exhaustive: keys of length 1..3 over {a,b}: every Put sequence (with repetitions) of <= 3 keys and every multiset of 4 keys inserted in ascending, descending and middle-out order; keys of length 1..2 over {a,0xC3,0xA9}: every Put sequence of <= 3 keys (thorough: keys 1..4 over {a,b} with multisets of 4 and 5, keys 1..3 over {a,b,0xC3}, multisets of 5 — those middle-out plus alternately ascending/descending —, sequences of 4); every key sequence is followed, in four separate cases (one per query kind Get, Contains, StartsWith, LongestPrefix), by the empty-argument call and then the call for EVERY string of length 1..4 (resp. 1..3) over the alphabet, Size and Keys; interleaved: every sequence of <= 3 (thorough 4) operations over Put k/Get k/StartsWith k/LongestPrefix kb/Keys/Size, k of length 1..2 over {a,b}, observed per operation, then Get of all six keys. After every Keys/StartsWith the drained keys are put back into the result queue, so the next call must clear it. random: 10..60 interleaved operations on key sets grown by extending, truncating, mutating and repeating earlier keys over a random sub-alphabet of {a,b,c,0x00,0x7f,0x80,0xa9,0xc3,0xff}. large: prefix chains of 12 and 25 nested keys (every fifth link unstored) in 4 insertion orders with LongestPrefix for every length; keys of 63..65, 127..129, 255..257 and 1000 (thorough 4000) bytes with siblings at the last byte; 40 keys under a 300-byte and 200 keys under a 60-byte shared prefix; 600 (thorough 3000) numeral keys with StartsWith returning up to all of them; random dense sets of 150..400 keys. extreme: all 256 one-byte keys; every byte value at the first and at the last position next to 0x00/0xFF/a/0x80, each in ascending, descending, middle-out and random insertion order; random keys over all byte values. non-trivial = the history stores a key together with a proper prefix of it, or asks Get/Contains for an unstored proper prefix of a stored key; distinct = distinct wire input"})
 }
